@@ -520,7 +520,12 @@ func (e *Engine) Solve(o *Oblig, opts SolveOpts, stats *SolveStats, prep *sync.M
 		if winner == second.Name {
 			second = Solvers[0]
 		}
-		v2, out2, secs2 := runSolver(second, file, timeout)
+		// the cross-check can only refute (a model) — an "unknown" from it changes nothing — so it gets a short budget
+		xt := timeout
+		if xt > 10 {
+			xt = 10
+		}
+		v2, out2, secs2 := runSolver(second, file, xt)
 		o.Secs += secs2
 		stats.mu.Lock()
 		stats.Secs[second.Name] += secs2
